@@ -502,6 +502,8 @@ def _adt_of_discr(prog, fn, bb):
     rv = st.get('rv', {})
     if 'discr' not in rv:
         return None
+    if rv.get('adt'):
+        return rv['adt']
     return place_adt(prog, fn, rv['discr'])
 
 
